@@ -72,8 +72,10 @@ def cases(tier, seed):
             for st in S3_STYLES:
                 yield {"k": "S3", "tpl": tpl, "target": target, "style": st}
     names = list(S5_FILES)
-    for n in (1, 2, 3, 4):
+    for n in (1, 2, 3, 4, 5):
         for perm in itertools.permutations(names, n):
+            if n == 5 and tier == "quick" and (sum(map(ord, "".join(perm))) + seed) % 4:
+                continue
             for rec in (False, True):
                 yield {"k": "S5", "args": list(perm), "rec": rec}
     for rec_arg in (".", "sub", "sub/.."):
@@ -95,6 +97,7 @@ S5_FILES = {
     "a.py": ("# SPDX-FileCopyrightText: 2001 Ann\n# SPDX-License-Identifier: ISC\n\nx = 1\n", ["SPDX-FileCopyrightText: 2001 Ann"], ["ISC"], None),
     "sub/b.c": ("/*\n * SPDX-FileCopyrightText: 2002 Bob\n * SPDX-License-Identifier: Zlib\n */\n\nint x;\n", ["SPDX-FileCopyrightText: 2002 Bob"], ["Zlib"], None),
     "sub/c.html": ("<p>x</p>\n", [], [], None),
+    "e.py": ("# SPDX-FileCopyrightText: 2020 Jane Doe\n# SPDX-License-Identifier: MIT\n\ny = 2\n", ["SPDX-FileCopyrightText: 2020 Jane Doe"], ["MIT"], None),
     "d.txt": ("# SPDX-FileCopyrightText: 1999 Hidden\n# SPDX-License-Identifier: X11\ntext\n", ["SPDX-FileCopyrightText: 2003 Dee"], ["0BSD"],
               "SPDX-FileCopyrightText: 2003 Dee\nSPDX-License-Identifier: 0BSD\n"),
 }
@@ -128,8 +131,8 @@ def ev_S5(c) -> R:
         info = annot.lint_file_info(root, name)
         want_c, want_l = list(pc), list(pl)
         if name in touched:
-            want_c.append("SPDX-FileCopyrightText: 2020 Jane Doe")
-            want_l.append("MIT")
+            want_c = sorted(set(want_c) | {"SPDX-FileCopyrightText: 2020 Jane Doe"})
+            want_l = sorted(set(want_l) | {"MIT"})
         if info is None or sorted(info[0]) != sorted(want_c) or sorted(info[1]) != sorted(want_l):
             r.violation(f"S5-readback|rec={c['rec']}|{name}|{'named' if name in touched else 'not-named'}",
                         f"{label}: {name} reads back {info}, expected copyrights {sorted(want_c)} expressions {sorted(want_l)}")
